@@ -259,7 +259,7 @@ fn tree_of(s: &str) -> Got<(String, Vec<usize>)> {
 }
 
 pub fn run(ctx: &Ctx) -> Outcome {
-    let sp = spaces::c01_space(ctx.tier, ctx.seed ^ 19, true, 3, 4, 2, 2, 3_000, 20_000);
+    let sp = spaces::c01_space(ctx.tier, ctx.seed ^ 19, true, 3, 4, 2, 2, 10_000, 40_000);
     let mut bases = special_bases();
     let n_special = bases.len();
     bases.extend(sp.patterns);
